@@ -22,6 +22,7 @@ from ..core import short_exc  # noqa: E402
 from . import nfdag  # noqa: E402
 
 PROP = "C19"
+EPILOGUE_ITEMS = 2  # items are heavy (whole BFS each)
 LEVEL = "fault_enumeration"
 ENGINE = "E4-crash-points"
 TECHNIQUE = "crash-point enumeration: explicit-state BFS over directory trees, one transition per (script execution, crash point), crash points = every filesystem mutation of the script and every order ideal of the pipeline's publication DAG"
